@@ -76,6 +76,7 @@ func (e *Env) role(t *Term) (string, bool) {
 type Outcome struct {
 	Hit   bool
 	Tag   string
+	RetI  *int64 // integer constant returned (RetIdx result), if it is one
 	Ret   Tri
 	Ended string // return, stop, loop, panic
 	Why   string // first unknown condition met on the path (diagnostics)
@@ -97,6 +98,7 @@ type Walker struct {
 
 type pstate struct {
 	vals      map[ssa.Value]Tri
+	ints      map[ssa.Value]int64
 	visited   map[*ssa.BasicBlock]int
 	hit       bool
 	tag       string
@@ -106,7 +108,7 @@ type pstate struct {
 }
 
 func newPstate(fr *frame) *pstate {
-	ps := &pstate{vals: map[ssa.Value]Tri{}, visited: map[*ssa.BasicBlock]int{},
+	ps := &pstate{vals: map[ssa.Value]Tri{}, ints: map[ssa.Value]int64{}, visited: map[*ssa.BasicBlock]int{},
 		epoch: map[*types.Var]int{}, loadEpoch: map[ssa.Value]int{}}
 	ps.tm = newTermer(fr)
 	ps.tm.tagOf = func(v ssa.Value) int { return ps.loadEpoch[v] }
@@ -121,6 +123,9 @@ func (p *pstate) clone(fr *frame) *pstate {
 	}
 	for k, v := range p.visited {
 		q.visited[k] = v
+	}
+	for k, v := range p.ints {
+		q.ints[k] = v
 	}
 	for k, v := range p.epoch {
 		q.epoch[k] = v
@@ -187,6 +192,15 @@ func (w *Walker) walk(b, pred *ssa.BasicBlock, ps *pstate) {
 				if idx >= 0 && isBool(phi.Type()) {
 					newv[phi] = w.evalBool(phi.Edges[idx], ps)
 				}
+				if idx >= 0 && isIntType(phi.Type()) {
+					if c, ok := phi.Edges[idx].(*ssa.Const); ok && c.Value != nil {
+						ps.ints[phi] = c.Int64()
+					} else if iv, ok := ps.ints[phi.Edges[idx]]; ok {
+						ps.ints[phi] = iv
+					} else {
+						delete(ps.ints, phi)
+					}
+				}
 			}
 			for k, v := range newv {
 				ps.vals[k] = v
@@ -220,6 +234,14 @@ func (w *Walker) walk(b, pred *ssa.BasicBlock, ps *pstate) {
 			o := Outcome{Hit: ps.hit, Tag: ps.tag, Ended: "return", Why: w.why}
 			if w.RetIdx >= 0 && w.RetIdx < len(t.Results) && isBool(t.Results[w.RetIdx].Type()) {
 				o.Ret = w.evalBool(t.Results[w.RetIdx], ps)
+			}
+			if w.RetIdx >= 0 && w.RetIdx < len(t.Results) && isIntType(t.Results[w.RetIdx].Type()) {
+				if c, ok := t.Results[w.RetIdx].(*ssa.Const); ok && c.Value != nil {
+					iv := c.Int64()
+					o.RetI = &iv
+				} else if iv, ok := ps.ints[t.Results[w.RetIdx]]; ok {
+					o.RetI = &iv
+				}
 			}
 			w.out = append(w.out, o)
 			return
@@ -269,10 +291,35 @@ func (w *Walker) cmpRanks(op token.Token, x, y ssa.Value) Tri {
 	if w.env.Norm != nil {
 		tx, ty = w.env.Norm(tx), w.env.Norm(ty)
 	}
+	// integer offsets: a+ka OP b+kb with kb-ka in {-1,0,1}
+	if isIntType(x.Type()) {
+		bx, kx := splitOffset(tx)
+		by, ky := splitOffset(ty)
+		if kx != 0 || ky != 0 {
+			d := ky - kx
+			tx, ty = bx, by
+			switch {
+			case d == 0:
+			case d == 1 && op == token.LSS: // a < b+1  ==  a <= b
+				op = token.LEQ
+			case d == 1 && op == token.GEQ: // a >= b+1 ==  a > b
+				op = token.GTR
+			case d == -1 && op == token.LEQ: // a <= b-1 == a < b
+				op = token.LSS
+			case d == -1 && op == token.GTR: // a > b-1 ==  a >= b
+				op = token.GEQ
+			default:
+				return U
+			}
+		}
+	}
 	rx, okx := w.env.role(tx)
 	ry, oky := w.env.role(ty)
 	if !okx || !oky {
 		return U
+	}
+	if w.env.Flags["nan:"+rx] || w.env.Flags["nan:"+ry] {
+		return tri(op == token.NEQ) // IEEE: every ordered comparison with NaN is false
 	}
 	a, b := w.env.Rank[rx], w.env.Rank[ry]
 	switch op {
@@ -634,7 +681,7 @@ func (a *A) OnlyIf(construct string, pos token.Pos, what string, s OrdSpec, star
 				return
 			}
 			if hit {
-				o := a.Bad(construct, pos, "%s: the effect is reachable under ordering [%s], where the property forbids it", what, fmtOrdering(r, flags))
+				o := a.Bad(construct, pos, "%s: the effect is reachable under ordering [%s], where the property forbids it (conditions that are not comparisons of the roles are assumed to go either way)", what, fmtOrdering(r, flags))
 				o.Extra = map[string]any{"refuting_ordering": fmtOrdering(r, flags)}
 				return
 			}
@@ -646,4 +693,29 @@ func (a *A) OnlyIf(construct string, pos token.Pos, what string, s OrdSpec, star
 	}
 	o := a.Ok(construct, pos, "%s: unreachable under all %d forbidden orderings (of %d) of (%s)", what, constrained, checked, strings.Join(s.Roles, ","))
 	o.Extra = map[string]any{"exhaustive": true}
+}
+
+func isIntType(t types.Type) bool {
+	b, ok := t.Underlying().(*types.Basic)
+	return ok && b.Info()&types.IsInteger != 0
+}
+
+// splitOffset: t = base + k for a small integer constant k.
+func splitOffset(t *Term) (*Term, int64) {
+	if t.Kind == "bin" && (t.Name == "+" || t.Name == "-") && len(t.Args) == 2 {
+		if c := t.Args[1]; c.Kind == "const" && c.Const != nil && c.Const.Kind() == constant.Int {
+			if k, ok := constant.Int64Val(c.Const); ok {
+				if t.Name == "-" {
+					k = -k
+				}
+				return t.Args[0], k
+			}
+		}
+		if c := t.Args[0]; t.Name == "+" && c.Kind == "const" && c.Const != nil && c.Const.Kind() == constant.Int {
+			if k, ok := constant.Int64Val(c.Const); ok {
+				return t.Args[1], k
+			}
+		}
+	}
+	return t, 0
 }
